@@ -9,7 +9,7 @@ LEVEL = "fault_enumeration"
 EXHAUSTIVE = True
 RULE = ("an explicit enumeration of tag values placed under the type-tag key (every JSON type, empty / dotted / "
         "relative / double-dotted strings, names of modules, functions, type variables, constants, non-serialisable "
-        "classes, abstract classes, dotted paths into classes (nested classes, attributes and methods of classes), packages whose import raises ImportError / RuntimeError / SyntaxError / SystemExit, a serialisable class whose _from_json is a plain function, a module whose "
+        "classes, abstract classes, dotted paths into classes (nested classes, attributes and methods of classes), packages whose import raises ImportError / RuntimeError / SyntaxError / SystemExit / a BaseException of their own, a lazily importing package, an unhashable class, an object whose attribute access raises, a serialisable class whose _from_json is a plain function, a module whose "
         "__getattr__ fails with KeyError) run completely, plus random tags assembled from dots and "
         "identifier fragments; a tag that an independent resolver finds to be a deserialisable class is skipped.  "
         "Oracle: every one of four consecutive presentations of the document (module-level from_json and "
@@ -36,12 +36,14 @@ FIXED_TAGS = [
     "krrood.adapters.nothere.X", "krrood..adapters.X", "dataclasses.dataclass", "dataclasses.MISSING", "enum.Enum",
     "abc.ABC", "decimal", "uuid", "uuid.uuid4", "uuid.NAMESPACE_DNS", "collections.abc", "collections.abc.Mapping",
     "sys.modules", "sys.path", "__main__.X", "__main__", "builtins.", ".builtins", "1.2", "1", "a.1", "a-b.c", "a/b.c",
-    "models.jsonmodel.PlainUUID", "models.jsonmodel.Coin", "models.jsonmodel.ForgotClassMethod", "models.jsonmodel.PlainFunctionFromJson", "models.badpkg_exit.Thing", "models.badpkg_exit", "models.badpkg_exit.Outer.Inner", "models.badpkg_runtime.Outer.Inner", "models.badpkg_exit.a.b.c",
+    "models.jsonmodel.PlainUUID", "models.jsonmodel.Coin", "models.jsonmodel.ForgotClassMethod", "models.jsonmodel.PlainFunctionFromJson", "models.lazypkg.tool", "models.lazypkg.tool.Thing", "models.lazypkg.nothere", "models.badpkg_skip.Thing", "models.badpkg_skip.Outer.Inner",
+    "models.jsonmodel.StaticWithClassParameter", "models.jsonmodel.Unhashable", "models.jsonmodel.SETTINGS",
+    "models.badpkg_exit.Thing", "models.badpkg_exit", "models.badpkg_exit.Outer.Inner", "models.badpkg_runtime.Outer.Inner", "models.badpkg_exit.a.b.c",
     "models.jsonmodel.Outer", "models.jsonmodel.Outer.NestedNode", "models.jsonmodel.Outer.Missing", "models.jsonmodel.Outer.NestedNode.x",
     "models.jsonmodel.Node0.name", "models.jsonmodel.Node0._from_json", "json.decoder.JSONDecoder.decode", "json.decoder.JSONDecoder.decode.x",
     "os.path.join", "os.path.", "a\x00b.c", "os.\x00", "a" * 300 + ".b", "importlib.import_module", "types.ModuleType", "types.FunctionType", "functools.partial",
 ]
-FRAGS = ["badpkg_exit", "badpkg_runtime", "os", "path", "json", "krrood", "adapters", "json_serializer", "models", "jsonmodel", "badpkg", "x", "X",
+FRAGS = ["badpkg_exit", "badpkg_runtime", "lazypkg", "tool", "badpkg_skip", "Unhashable", "SETTINGS", "os", "path", "json", "krrood", "adapters", "json_serializer", "models", "jsonmodel", "badpkg", "x", "X",
          "uuid", "UUID", "typing", "List", "T", "", " ", "1", "builtins", "int", "dumps", "a_function", "TV",
          "NotSerializable", "sys", "decimal", "Decimal", "Node0", "nothere", "Outer", "NestedNode", "JSONDecoder", "decoder", "PlainUUID", "Coin"]
 
@@ -85,6 +87,9 @@ def witnesses():
         "import-error-module": {"tag": "models.badpkg.Thing", "missing": False, "extra": 0},
         "present-but-falsy-tag-reported-as-missing": {"tag": 0, "missing": False, "extra": 1},
         "module-that-exits-on-import": {"tag": "models.badpkg_exit.Thing", "missing": False, "extra": 0},
+        "base-exception-while-importing-or-looking-up": {"tag": "models.lazypkg.tool", "missing": False, "extra": 0},
+        "unhashable-or-uncooperative-target": {"tag": "models.jsonmodel.SETTINGS", "missing": False, "extra": 0},
+        "static-from-json-that-cannot-take-the-document": {"tag": "models.jsonmodel.StaticWithClassParameter", "missing": False, "extra": 0},
         "module-that-exits-on-import-below-a-nested-name": {"tag": "models.badpkg_exit.Outer.Inner", "missing": False, "extra": 0},
         "from-json-is-a-plain-function-with-a-class-parameter": {"tag": "models.jsonmodel.ForgotClassMethod", "missing": False, "extra": 0},
         "serialisable-class-without-from-json": {"tag": "krrood.adapters.json_serializer.SubclassJSONSerializer", "missing": False, "extra": 1},
@@ -122,13 +127,17 @@ def independent_valid(tag):
             return False
     try:
         obj = getattr(m, cls, None) if cls else None
-    except Exception:
+    except KeyboardInterrupt:
+        raise
+    except BaseException:
         return False
     if not isinstance(obj, type) or inspect.isabstract(obj):
         return False
     if issubclass(obj, SubclassJSONSerializer):
         # deserialisable only when the class says how it is created from json
         raw = inspect.getattr_static(obj, "_from_json", None)
+        if isinstance(raw, staticmethod):
+            raw = raw.__func__
         if inspect.isfunction(raw):
             # a plain function in the class body is called on the class without an instance: the document is its first
             # argument.  It says how the class is created from json iff it can be called like that
@@ -214,7 +223,9 @@ def run(spec, ctx):
                 return {"status": "fail", "kind": "wrong-error:" + type(e).__name__, "key": None,
                         "detail": f"tag={tag!r} (missing={spec['missing']}) attempt {n + 1} via {ename} raised {type(e).__name__}, "
                                   f"the problem is a {want}"[:300]}
-        except (Exception, SystemExit) as e:
+        except KeyboardInterrupt:
+            raise
+        except BaseException as e:
             key = mechanism(tag, e)
             C["escaped:" + type(e).__name__] += 1
             return {"status": "fail", "kind": "undocumented-exception:" + type(e).__name__, "key": key,
